@@ -16,7 +16,7 @@ HARNESS = os.path.join(VERIF, "harness")
 ASAN_BIN = os.path.join(HARNESS, "target-asan", "x86_64-unknown-linux-gnu", "asan", "lmcheck")
 GUARD_BIN = os.path.join(HARNESS, "target-guard", "release", "lmcheck")
 ENV = dict(os.environ, CARGO_NET_OFFLINE="true", ASAN_OPTIONS="detect_leaks=0:abort_on_error=1:symbolize=1")
-PROPS = ["C01", "C02", "C03", "C04", "C05", "C07", "C08"]
+PROPS = ["C01", "C02", "C03", "C04", "C05", "C07", "C08", "C16", "C19"]
 
 
 def build_asan():
@@ -156,12 +156,12 @@ def main():
     cov = ev["coverage"]
     cov["evaluations"] += cases
     cov["asan_proptest"] = {"cases_run_under_asan": cases, "per_property": per_prop,
-                            "what": "the generated checks of C01 (scoring), C02/C03 (scanner), C04 (striping histories), C05 (encoding), C07 (maxima), C08 (8-bit kernels) rebuilt with -Zsanitizer=address and debug assertions, run in child processes; a child killed by the sanitizer is a C06 violation"}
+                            "what": "the generated checks of C01 (scoring), C02/C03 (scanner), C04 (striping histories), C05 (encoding), C07 (maxima), C08 (8-bit kernels), C16 (sampler), C19 (dense matrix histories) rebuilt with -Zsanitizer=address and debug assertions, run in child processes; a child killed by the sanitizer is a C06 violation"}
     cov["evaluations"] += guard_cases
     cov["guard_proptest"] = {"cases_run_under_the_guard_allocator": guard_cases, "per_property": guard_per_prop,
                              "what": "the same generated checks rebuilt with a guard allocator (2048 pattern bytes before and after every heap block, verified when the block is freed): observes out-of-bounds WRITES of the SIMD kernels, whose non-temporal stores (_mm256_stream_ps / _mm256_stream_si256 / _mm_stream_ps) are inline asm in core::arch and are not instrumented by AddressSanitizer"}
     cov["rule"] += " || [guard-proptest] the same generators re-run under the guard allocator"
-    cov["rule"] += " || [asan-proptest] C01/C02/C03/C04/C05/C07/C08 generators re-run under AddressSanitizer (counted in evaluations, not in distinct_nontrivial)"
+    cov["rule"] += " || [asan-proptest] C01/C02/C03/C04/C05/C07/C08/C16/C19 generators re-run under AddressSanitizer (counted in evaluations, not in distinct_nontrivial)"
     ev["violations"] = ev.get("violations", 0) + violations
     ev["wall_s"] = round(time.time() - t0, 3)
     ev["tier"] = tier
